@@ -236,6 +236,79 @@ func runC01(c *core.Ctx) {
 		})
 	})
 
+	// books nested exactly one level below the limit whose deepest chain ends in a recipe without
+	// ingredients, in a recipe of zero amounts, in a basic name, in a recipe declared twice: "less deeply than the
+	// limit" counts references, whatever the chain ends in
+	c.RunPart("l3-boundary", 10*time.Minute, func(c *core.Ctx) {
+		for _, limit := range []int{1, 2, 3, 4, 5, 10, 11, 64} {
+			for endKind := 0; endKind < 5; endKind++ {
+				refs := limit - 1 // references on the longest chain
+				var b gen.Book
+				name := func(i int) string { return fmt.Sprintf("r%03d", i) }
+				last := "x"
+				n := refs // number of recipes that carry one reference each
+				switch endKind {
+				case 0: // the chain ends in a basic name: r1 -> ... -> r(refs) -> x
+				case 1, 2, 3: // the chain ends in a recipe that has no references itself: one reference fewer is carried by the others
+					if refs == 0 {
+						continue
+					}
+					last = "end"
+				case 4: // a second, shorter branch next to the longest chain
+				}
+				if endKind >= 1 && endKind <= 3 {
+					n = refs
+				}
+				for i := 1; i <= n; i++ {
+					next := name(i + 1)
+					if i == n {
+						next = last
+					}
+					rec := gen.Recipe{Name: name(i), Ents: []gen.Ent{{Name: next, Val: gen.Half(2)}}}
+					if endKind == 4 {
+						rec.Ents = append(rec.Ents, gen.Ent{Name: "y", Val: gen.Half(3)})
+					}
+					b = append(b, rec)
+				}
+				switch endKind {
+				case 1:
+					b = append(b, gen.Recipe{Name: "end"})
+				case 2:
+					b = append(b, gen.Recipe{Name: "end"}, gen.Recipe{Name: "other", Ents: []gen.Ent{{Name: "end", Val: gen.Half(2)}}})
+				case 3:
+					// declared twice: the later, empty declaration counts
+					b = append(gen.Book{{Name: "end", Ents: []gen.Ent{{Name: "x", Val: gen.Half(2)}}}}, b...)
+					b = append(b, gen.Recipe{Name: "end"})
+				}
+				if len(b) == 0 {
+					continue
+				}
+				longest, cyc := model.Chain(b)
+				if cyc || longest >= limit {
+					c.HarnessError(fmt.Sprintf("boundary book kind %d: chain %d for limit %d", endKind, longest, limit))
+					continue
+				}
+				want := model.Resolve(b)
+				r := c.Rng("boundary", limit*10+endKind)
+				for k := 0; k < 6; k++ {
+					order := r.Perm(len(b))
+					if endKind == 3 {
+						// declaration order matters for the redeclared heading: keep it
+						order = nil
+						for i := range b {
+							order = append(order, i)
+						}
+					}
+					for entry := 0; entry < 2; entry++ {
+						c01Eval(c, "boundary", b, order, entry, limit, want, nil, true)
+						c.Nontrivial("boundary", bookText(b), orderStr(order), fmt.Sprint(entry, limit))
+						c.Count("boundary_books", 1)
+					}
+				}
+			}
+		}
+	})
+
 	c.RunPart("l3-random", 20*time.Minute, func(c *core.Ctx) {
 		n := c.N(2000, 40000)
 		core.ParallelFor(n, c.Procs, func(w, i int) {
@@ -409,6 +482,26 @@ func runC01(c *core.Ctx) {
 					return
 				}
 				delete(wantET, g.Name)
+			}
+		}
+		// only names the book does not define stand for themselves: a recipe logged directly and asked for as the
+		// single element of the register is expanded into its elements, so it has no row of its own
+		if len(b) > 0 {
+			rn := b[r.Intn(len(b))].Name
+			if _, defined := want[rn]; defined && len(want[rn]) > 0 && indexElem(want[rn], rn) < 0 {
+				lfiles := map[string]string{"logr.yaml": gen.RenderLog(gen.Log{{Date: gen.Date{Y: 2021, M: 1, D: 24}, Ents: []gen.Ent{{Name: rn, Val: gen.Half(4)}}}}, "2006/01/02", nil)}
+				srv.Write(lfiles)
+				for _, extra := range [][]string{nil, {"--csv"}, {"-g"}} {
+					sargs := append([]string{"--no-color", "-d", "food.yaml", "-l", "logr.yaml", "reg", "-s", rn}, extra...)
+					sres := srv.App1(sargs, nil)
+					c.Eval(1)
+					c.Count("cli_recipe_name_as_single_element", 1)
+					if sres.Exit != 0 || strings.TrimSpace(sres.Out) != "" {
+						c.Violation("reg -s|recipe-name-left-unexpanded", fmt.Sprintf("%s: recipe %q is logged and expands to %d elements, yet the single-element register of its own name shows %q (exit %d)", joinArgs(sargs[5:]), rn, len(want[rn]), clip(sres.Out, 120), sres.Exit),
+							caseDoc{Files: map[string]string{"food.yaml": text, "logr.yaml": lfiles["logr.yaml"]}, Args: sargs, Observed: resDoc(sres)})
+						break
+					}
+				}
 			}
 		}
 		if i < 2 {
